@@ -1,6 +1,7 @@
 package main
 
 import (
+	"github.com/google/go-tdx-guest/verify/trust"
 	"bytes"
 	"sort"
 	"encoding/json"
@@ -50,6 +51,17 @@ func c10(r *hx.Run) {
 		return "ok"
 	}
 
+	// an endpoint that never answers behind the library's own retrying getter: the verification gives up, it does not hang
+	// (every setting of the retry delay, also unset; the 30 s watchdog is 100 times the configured timeout)
+	for _, maxDelay := range []time.Duration{0, -time.Second, time.Millisecond, 50 * time.Millisecond, 10 * time.Second} {
+		for _, cr := range []bool{false, true} {
+			maxDelay, cr := maxDelay, cr
+			crashCase("verify.RawTdxQuote", fmt.Sprintf("retry-getter-endpoint-down max=%v cr=%v", maxDelay, cr), func() string {
+				g := &trust.RetryHTTPSGetter{Timeout: 300 * time.Millisecond, MaxRetryDelay: maxDelay, Getter: &world.Getter{M: map[string]*world.Response{}}}
+				return errStr(verify.RawTdxQuote(sampleQuote(), &verify.Options{GetCollateral: true, CheckRevocations: cr, Getter: g}))
+			})
+		}
+	}
 	// RawTdxQuote (verify and validate) on raw bytes
 	intel := sampleQuote()
 	step := 16
@@ -182,7 +194,7 @@ func c10(r *hx.Run) {
 			emitWorld(r, world.Build(s), nil, "collateral-body:"+which)
 		}
 	}
-	for _, mode := range []string{"absent", "two", "empty", "badescape", "wrongtype", "garbageder"} {
+	for _, mode := range []string{"absent", "two", "three", "empty", "novalues", "nilvalues", "badescape", "wrongtype", "garbageder"} {
 		for _, which := range []string{"tcb", "qe", "pckcrl"} {
 			s := honestSpec(rng)
 			s.GC, s.CR, s.Honest, s.Fault = true, true, false, "header-"+mode
